@@ -223,6 +223,11 @@ func (e *Eng) lookupName(name string, c *ctx) types.Object {
 func (e *Eng) evalObject(obj types.Object, name string, c *ctx) Val {
 	switch o := obj.(type) {
 	case *types.Var:
+		if e.escaped[o] {
+			// the address of this scalar variable was taken: it may have been
+			// written through the pointer, so every read is unconstrained
+			return e.symFor(name+".escaped", o.Type(), c.st)
+		}
 		if v, ok := c.st.vars[o]; ok {
 			return v
 		}
